@@ -9,7 +9,7 @@ inside transitions, and one injected fault — is decided by the model:
 
 * a configuration `FCfg` carries the configuration `LCfg` of the model with listeners, the **armed fault**
   (`Arm`: hook, number of calls of that hook that still pass, raise before / after `super()`), the flag `fired`, the
-  counter `called` of `call_with_super_check` (which is not exception-safe: `hookF`), and the log `rep` of the requests issued
+  counter `called` of `call_with_super_check` (`hookF`), and the log `rep` of the requests issued
   by listeners that raised (a listener is the requester then);
 * every function of `PM/Listener.lean` that contains a call of a user hook gets a twin `…F` returning
   `FCfg × Option Exc`: the configuration reached so far (Python does not roll back mutations) and the exception that
@@ -56,6 +56,7 @@ structure FCfg where
   arm : Option Arm := none
   fired : Bool := false
   called : Nat := 0                   -- `_called`, the counter of `call_with_super_check` / `super_check`
+  inState : Bool := true              -- `self._state.in_state`: the current state object has been entered and not exited yet
   rep : List (Req × RetV) := []       -- newest first: the requests issued by listeners that RAISED (the listener is the requester)
 
 abbrev Res := FCfg × Option Exc
@@ -75,14 +76,14 @@ def bind (r : Res) (k : FCfg → Res) : Res :=
 /-- a user hook is called through `call_with_super_check(self.on_x)`:
 ```
 call_count = self._called; self._called = call_count + 1
-self.on_x()            # the user override: [raise]; super().on_x(); [raise]
+try: self.on_x()            # the user override: [raise]; super().on_x(); [raise]
+except BaseException: self._called = call_count; raise
 assert self._called == call_count
 ```
 and the base implementation is wrapped by `super_check`: `assert self._called >= 1; base(); self._called -= 1`.
 The call of the override is counted on entry; the armed call raises before calling `super()` or after it returned (if `super()`
-itself raised, that exception propagates).  Neither wrapper is exception-safe: an override that raises BEFORE calling `super()`
-leaves `_called` one too high, and a hook call that is in progress around it (`on_paused` / `on_playing` / `on_running` whose
-listeners made the request that led here) then fails its own final assertion although its base implementation ran. -/
+itself raised, that exception propagates).  When the call raises, the counter is put back to what it was on entry (repair
+6c8055d), so a hook call that is in progress around it passes its own final check. -/
 inductive HookOut | pass | before | after
 deriving DecidableEq, Repr, Inhabited
 
@@ -108,12 +109,12 @@ def hookF (hk : HK) (base : FCfg → Res) (x : FCfg) : Res :=
   let d := armStep hk x.arm
   let x := { x with called := cc + 1, arm := d.2 }
   match d.1 with
-  | .before => ({ x with fired := true }, some faultExc)
+  | .before => ({ x with called := cc, fired := true }, some faultExc)
   | o =>
     match supF hk base x with
-    | (y, some e) => (y, some e)
+    | (y, some e) => ({ y with called := cc }, some e)
     | (y, none) =>
-      if o = .after then ({ y with arm := none, fired := true }, some faultExc)
+      if o = .after then ({ y with called := cc, arm := none, fired := true }, some faultExc)
       else if y.called = cc then (y, none) else (y, some .assertion)
 
 def enteredHK : SObj → Option HK
@@ -156,24 +157,30 @@ def enteredBaseF (s : SObj) (x : FCfg) : Res :=
 
 def enteredHooksF (x : FCfg) (s : SObj) : Res := hookOpt (enteredHK s) (enteredBaseF N s) x
 
-/-- `transition_failed` → `transition_to(EXCEPTED)` with the exit phase bypassed; an exception in there propagates -/
+/-- the failing path of `transition_to`: a state that is still entered (the failed transition was cut short before it had been
+exited: a failing exiting callback, an invalid target) and not terminal is exited now, without callbacks (repair a130f23) -/
+def lateExitF (x : FCfg) : FCfg :=
+  if x.inState && !terminal x.l.c.st.label then { x.updC exitState with inState := false } else x
+
+/-- `transition_failed` → `transition_to(EXCEPTED)` with the EXITING callbacks bypassed; an exception in there propagates -/
 def forceExceptedF (x : FCfg) (e : Exc) : Res :=
   if x.l.c.closed then ok (x.updC (fun c => { c with st := .excepted e })) else
   let x := x.updL (fun l => { l with trans := some .excepted })
+  let x := lateExitF x
   let x := x.updC (fun c => setFutExc c e)
   let x := N .entering x
-  let x := x.updC (fun c => setState c (.excepted e))
+  let x := { x.updC (fun c => setState c (.excepted e)) with inState := true }
   bind (enteredHooksF N x (.excepted e)) terminatedF
 
 def enterNextF (x : FCfg) (s : SObj) : Res :=
-  let x := x.updC (fun c => setState (enterState c s) s)
+  let x := { x.updC (fun c => setState (enterState c s) s) with inState := true }
   bind (enteredHooksF N x s) fun x =>
   if terminal s.label then terminatedF x else ok x
 
 /-- EXITING callbacks (the process's own `on_exiting` → `on_exit_running / on_exit_waiting` first, then the others),
 `do_exit()` -/
 def exitOnceF (x : FCfg) : Res :=
-  bind (hookOpt (exitHK x.l.c.st.label) ok x) fun x => ok ((N .exiting x).updC exitState)
+  bind (hookOpt (exitHK x.l.c.st.label) ok x) fun x => ok { (N .exiting x).updC exitState with inState := false }
 
 def exitPhaseF (x : FCfg) (s : SObj) : Res :=
   bind (exitOnceF N x) fun x => if retargeted x.l s then exitOnceF N x else ok x
@@ -282,7 +289,8 @@ def reqKF : Req → FCfg → FCfg
 /-! ### the closing part of `Process.step` -/
 
 /-- `CancellableAction.run(next)`: the action's exception becomes the exception of the action future — unless the action
-was cancelled (superseded) while it ran: then nobody is left to report to and it propagates -/
+was cancelled (superseded by another request) while it ran: then nobody is left to report to, the failure is logged, and the
+step goes on to serve the request that superseded it (repair e94edb5) -/
 def runActionF (x : FCfg) (i : Nat) (next : Option SObj) : Res :=
   match x.l.c.actions[i]? with
   | none => ok x
@@ -303,7 +311,7 @@ def runActionF (x : FCfg) (i : Nat) (next : Option SObj) : Res :=
     match r with
     | (x, none) => ok (if actionStatus x.l.c i = .pending then x.updC (fun c => setActionStatus c i .done) else x)
     | (x, some e) =>
-        if actionStatus x.l.c i = .pending then ok (x.updC (fun c => setActionStatus c i (.failed e))) else (x, some e)
+        ok (if actionStatus x.l.c i = .pending then x.updC (fun c => setActionStatus c i (.failed e)) else x)
 
 def enactLoopF : Nat → FCfg → Res
   | 0, x => ok x
